@@ -1,8 +1,8 @@
-\* quick exhaustive: area 4, K=2, 2 callers, 2 heights, raw and cascade wiring, 3 calls, 2 environment actions (cancel/flush/restart/crash)
+\* thorough: K=5 > area 4 (the whole square is sampled)
 SPECIFICATION Spec
 CONSTANTS
   Coords = {c0, c1, c2, c3}
-  K = 2
+  K = 5
   Callers = {p1, p2}
   Heights = {h1, h2}
   NoCaller = NoCaller
